@@ -363,10 +363,19 @@ Proof.
   rewrite Ha. auto.
 Qed.
 
-Lemma xstep_ok c s o s' x l : inv c s -> xstep c s o = (s', x, l) -> inv c s' /\ calls_ok c l = true.
+Lemma add_sort_ok c t l : ok c t = true -> calls_ok c l = true -> calls_ok c (map (add_sort t) l) = true.
+Proof.
+  intros Ht. induction l as [|x r IH]; cbn [map calls_ok forallb]; [reflexivity|].
+  intro H. apply andb_true_iff in H as [H1 H2]. fold (calls_ok c (map (add_sort t) r)). rewrite IH by assumption.
+  rewrite andb_true_r. destruct x; cbn [add_sort]; try assumption.
+  unfold call_ok in *. cbn [call_terms forallb] in *. apply andb_true_iff in H1 as [Ha Hb].
+  rewrite Ha, forallb_app, Hb. cbn [forallb]. rewrite Ht. reflexivity.
+Qed.
+
+Lemma xstep_ok c s o s' x l : inv c s -> xstep Fixed c s o = (s', x, l) -> inv c s' /\ calls_ok c l = true.
 Proof.
   intros [Hm Hc] H. unfold xstep in H.
-  destruct o as [o|names|].
+  destruct o as [o|q sn|names|].
   - destruct o.
     + destruct (valid_put k v t); [|inversion H; subst; split; [split; assumption|reflexivity]].
       destruct (fs_put c 0 (s_main s) (s_nx s) (tkey k) (tval v) (map app_tag t)) as [[[m nx] y] l1] eqn:HP.
@@ -391,6 +400,10 @@ Proof.
       apply fs_batch_ok in HP as [H1 H2]; [|assumption]. inversion H; subst. split; [split; assumption|assumption].
     + inversion H; subst. split; [split; assumption|reflexivity].
     + inversion H; subst. split; [split; [reflexivity|assumption]|reflexivity].
+  - destruct (is_nil q); [inversion H; subst; split; [split; assumption|reflexivity]|].
+    destruct (fs_query c 0 (s_main s) (s_nx s) (split_colon (expr_toks q) [])) as [[nx y] l1] eqn:HP.
+    apply fs_query_ok in HP. inversion H; subst. split; [split; assumption|].
+    apply add_sort_ok; [apply mac64_ok|assumption].
   - destruct (existsb colon_name names); [inversion H; subst; split; [split; assumption|reflexivity]|].
     destruct (format c (s_nx s) None None
                 (map (fun n => (tname n, lit_empty)) names ++ (if f_det c then [] else [(lit_keytag, lit_empty)])))
@@ -408,12 +421,12 @@ Proof.
       rewrite calls_ok_app, open_cfg_ok, HL; reflexivity.
 Qed.
 
-Lemma xrun_ok c : forall ops s s' outs, inv c s -> xrun c s ops = (s', outs) ->
+Lemma xrun_ok c : forall ops s s' outs, inv c s -> xrun Fixed c s ops = (s', outs) ->
   inv c s' /\ calls_ok c (flat_map snd outs) = true.
 Proof.
   induction ops as [|o r IH]; cbn; intros s s' outs Hi H; [inversion H; subst; auto|].
-  destruct (xstep c s o) as [[s1 x] l] eqn:HS. apply xstep_ok in HS as [Hi1 Hl]; [|assumption].
-  destruct (xrun c s1 r) as [s2 rest] eqn:HR. apply IH in HR as [Hi2 Hrest]; [|assumption].
+  destruct (xstep Fixed c s o) as [[s1 x] l] eqn:HS. apply xstep_ok in HS as [Hi1 Hl]; [|assumption].
+  destruct (xrun Fixed c s1 r) as [s2 rest] eqn:HR. apply IH in HR as [Hi2 Hrest]; [|assumption].
   inversion H; subst. cbn [flat_map snd]. rewrite calls_ok_app, Hl, Hrest. auto.
 Qed.
 
@@ -427,9 +440,9 @@ Qed.
 Lemma inv0 c : inv c st0.
 Proof. split; reflexivity. Qed.
 
-Lemma xlog_ok c ops : calls_ok c (xlog c ops) = true.
+Lemma xlog_ok c ops : calls_ok c (xlog Fixed c ops) = true.
 Proof.
-  unfold xlog. destruct (xrun c st0 ops) as [s outs] eqn:HR. apply xrun_ok in HR as [_ H]; [|apply inv0].
+  unfold xlog. destruct (xrun Fixed c st0 ops) as [s outs] eqn:HR. apply xrun_ok in HR as [_ H]; [|apply inv0].
   cbn. exact H.
 Qed.
 
@@ -444,16 +457,16 @@ Qed.
 
 Lemma secrecy_from c s ops ks t :
   inv c s -> foreign_keys c ks ->
-  derivable (ks ++ log_terms (flat_map snd (snd (xrun c s ops)))) t -> ok c t = true.
+  derivable (ks ++ log_terms (flat_map snd (snd (xrun Fixed c s ops)))) t -> ok c t = true.
 Proof.
-  intros Hi Hk HD. destruct (xrun c s ops) as [s' outs] eqn:HR. apply xrun_ok in HR as [_ H]; [|assumption].
+  intros Hi Hk HD. destruct (xrun Fixed c s ops) as [s' outs] eqn:HR. apply xrun_ok in HR as [_ H]; [|assumption].
   eapply ok_derivable; [|exact HD]. intros u Hu. apply in_app_iff in Hu as [Hu|Hu].
   - eapply foreign_ok; eassumption.
   - eapply calls_ok_terms; eassumption.
 Qed.
 
 Lemma secrecy c ops ks t :
-  foreign_keys c ks -> derivable (ks ++ log_terms (xlog c ops)) t -> ok c t = true.
+  foreign_keys c ks -> derivable (ks ++ log_terms (xlog Fixed c ops)) t -> ok c t = true.
 Proof.
   intros Hk HD. eapply ok_derivable; [|exact HD]. intros u Hu. apply in_app_iff in Hu as [Hu|Hu].
   - eapply foreign_ok; eassumption.
